@@ -87,6 +87,8 @@ func TestVerifC06Numa(t *testing.T) {
 		{Name: "shared-cpu", Divisible: true, Unit: 1000, Step: 500},
 		{Name: "shared-cpu-via-Allocate", Divisible: true, Unit: 1000, Step: 500, ViaRM: true},
 		{Name: "shared-cpu+memory", Divisible: true, Unit: 1000, Step: 1000, WithMem: true},
+		// (the per-resource ordering of the hinted nodes only happens for resources the node reports per NUMA node, i.e. on this path)
+		{Name: "shared-cpu+memory-via-Allocate", Divisible: true, Unit: 1000, Step: 1000, WithMem: true, ViaRM: true},
 		{Name: "bound-cpu", Divisible: false, Unit: 1000, Step: 1000, CPUBind: true},
 		{Name: "bound-cpu-FullPCPUs-required", Divisible: false, Unit: 1000, Step: 1000, CPUBind: true, FullPCPUs: true},
 	}
@@ -167,7 +169,11 @@ func TestVerifC06Numa(t *testing.T) {
 						for _, k := range hint {
 							memReq += memFree[k]
 						}
-						memReq = memReq / 2000 * 1000
+						// all but one unit of what the hinted nodes have: the split of the second resource has to drain its own
+						// scarcest node first, in ITS order of free amounts (reversed w.r.t. the first resource: seed C06-4)
+						if memReq >= 2000 {
+							memReq -= 1000
+						}
 						requests[corev1.ResourceMemory] = c06Quantity(memReq, true)
 					}
 					opts := &ResourceOptions{
@@ -192,6 +198,10 @@ func TestVerifC06Numa(t *testing.T) {
 							used := int64(k+1) * kind.Unit
 							totals[k] = NUMANodeResource{Node: k, Resources: corev1.ResourceList{resName: c06Quantity(free[k]+used, kind.Memory)}}
 							occ.NUMANodeResources = append(occ.NUMANodeResources, NUMANodeResource{Node: k, Resources: corev1.ResourceList{resName: c06Quantity(used, kind.Memory)}})
+							if kind.WithMem {
+								totals[k].Resources[corev1.ResourceMemory] = c06Quantity(memFree[k]+used, true)
+								occ.NUMANodeResources[k].Resources[corev1.ResourceMemory] = c06Quantity(used, true)
+							}
 						}
 						rm, tom := c06NewManager(smt, 1, 0, totals)
 						rm.Update(c06Node, occ)
